@@ -136,7 +136,7 @@ func Profiles() map[string]*Profile {
 		Judge:     []string{"open", "reopen", "flush"},
 		AuditMode: "visit", MaxStores: 1, MinOps: 6, MaxOps: 40, LongRunP: 0.02, LongOps: 150,
 		MaxColls: 3, MaxKeys: 14, CBChoices: []int{0, 0, 0, CBValWrite | CBValLength, CBAll}, CustomCmp: true, AdvValues: true, CheckDecode: true, PrioModes: []int{0, 1, 4}})
-	add(&Profile{Name: "C07", CheckFree: true, Weights: mergeW(mergeW(baseWeights(), snapW), map[string]float64{"flush": 3, "reopen": 2.5, "visit": 3, "iter": 1, "copyto": 0.5, "revert": 0.5, "evict": 3, "len": 0.3, "snapwrite": 0, "snaprevert": 0.5, "exist": 0}),
+	add(&Profile{Name: "C07", CheckFree: true, Weights: mergeW(mergeW(baseWeights(), snapW), map[string]float64{"flush": 3, "reopen": 2.5, "visit": 3, "iter": 1, "copyto": 0.5, "revert": 0.5, "evict": 3, "len": 0.3, "blockvisit": 0.4, "randvisit": 0.4, "snapwrite": 0, "snaprevert": 0.5, "exist": 0}),
 		AuditMode: "visit", MaxStores: 1, MinOps: 6, MaxOps: 30,
 		MaxColls: 2, MaxKeys: 12, CBChoices: []int{0, 0, 0, CBAll, CBValRead | CBValWrite}, CustomCmp: true, CheckDecode: true, PrioModes: []int{0, 1, 4}})
 	return ps
